@@ -446,6 +446,16 @@ def run_sequence(ctx, spec, stats=None):
         do_rt = (k + n) % 3 == 0
         if do_rt:
             pres = f.getPredictionResult()
+        if not boundary and (k + n) % 4 == 1:
+            # a what-if forecast for another sensor (same or different stack size) on the same filter object just before the real
+            # update: the update must still be the Kalman update for the observations it is given
+            alt_h = hs[0][::-1].copy() if (k % 2 or len(hs) == 1) else np.vstack([hs[0][::-1], hs[0][:1]])
+            alt_r = rs[0] if alt_h.shape[0] == rs[0].shape[0] else _blk([rs[0], rs[0][:1, :1]])
+            try:
+                f.forecast([st.linear_observation(alt_h, alt_r, np.zeros(alt_h.shape[0]), "w_")])
+                ctx.count("whatif_forecasts_before_update")
+            except Exception:  # noqa: BLE001
+                ctx.count("whatif_forecast_raised")
         ppf = kf.sym(pred_p)
         ev_s = np.linalg.eigvalsh(kf.sym(h @ (ppf if resample else pbar) @ h.T) + r)
         s_singular = not np.all(np.isfinite(ev_s)) or ev_s[0] <= 1e-14 * ev_s[-1]
